@@ -34,14 +34,14 @@ ENC_SWITCH = "encodedcommand"
 OCTET = rb"(?:25[0-5]|2[0-4][0-9]|1[0-9][0-9]|[1-9]?[0-9])"
 IPV4 = OCTET + rb"(?:\." + OCTET + rb"){3}"
 LDH_LABEL = rb"[A-Za-z0-9](?:[A-Za-z0-9-]*[A-Za-z0-9])?"
-EMAIL_LOCAL = rb"[A-Za-z0-9._%+-]{3,}"
+EMAIL_LOCAL = rb"[A-Za-z0-9][A-Za-z0-9._%+-]{2,}"
 EXE_NAME = rb"[A-Za-z0-9_]+\.[eE][xX][eE]"
 DLL_NAME = rb"[A-Za-z0-9_]+\.[dD][lL][lL]"
 # RFC 3986 (subset named by the statement): scheme://[userinfo@]host[:port][/path][?query][#fragment]
-_UNRES = rb"A-Za-z0-9._~-"
+_UNRES = rb"A-Za-z0-9._~"
 _SUBD = rb"!$&'()*+,;="
 _PCT = rb"%[0-9A-Fa-f]{2}"
-URL_USERINFO = rb"(?:[" + _UNRES + _SUBD + rb":]|" + _PCT + rb")*"
+URL_USERINFO = rb"(?:[" + _UNRES + _SUBD + rb":-]|" + _PCT + rb")*"
 URL_REGNAME = rb"[A-Za-z0-9.-]{4,253}"
 URL_PORT = rb"(?::[0-9]{0,4}|:[0-5][0-9]{4}|:6[0-4][0-9]{3})?"
 URL_TAILCHAR = rb"[A-Za-z0-9_~!$&(*+=:@/?%#-]"          # a url does not end in ' ) , . ;
